@@ -116,6 +116,28 @@ CHECKS["C05"] = dict(
     technique="TLA+ state-machine spec of the container walk checked by TLC on the exhaustive bounded space; end-state conformance against the real decoder",
     design="5 C05")
 
+CHECKS["C14"] = dict(
+    text=("The Decode.tla walk tracks the bit cursor and marks a walk 'poisoned' when a read is not inside the packet or has a negative "
+          "computed width (CursorIsSum invariant at every step); Trace_Decode!GenClause classifies the end state (clean iff status ok and "
+          "cursor = packet bits; otherwise flagged and withheld when bad packets are excluded, or an exception; poisoned never clean). TLC "
+          "runs this on fixed and length-dependent layouts x well-formed packets shorter / equal / longer than the layout consumes x the "
+          "length values that matter (incl. negative widths); each packet is run alone through the real packet_generator in both "
+          "parse_bad_pkts modes and the observed (items, warning, exception) must match."),
+    note="After an out-of-bounds or negative-width read only 'not delivered clean' is demanded; garbage values are not compared. " + TRUSTED,
+    technique="TLA+ state-machine spec of the walk with cursor accounting + classification; TLC on enumerated layouts x packets; end-state conformance against packet_generator",
+    design="5 C14")
+CHECKS["C11"] = dict(
+    text=("Generator.tla models several generator objects over one definition (per-generator stream, options, next() = Advance/Finish); "
+          "TLC explores ALL interleavings for 2-3 generators x streams of <= 3 packets over {exact, too long, variable, ambiguous, dead-end} "
+          "x the 8 option combinations with invariants OutEqualsPerPacket / DoneMeansAll and action property NoCrossTalk; per-packet end "
+          "states come from the Decode walk. An edge cover of the dumped graph is replayed on real generators sharing one definition "
+          "(each next() compared with the model, with the single-packet parse, and warning counts), random long streams with random "
+          "schedules are validated by Trace_Generator, and the definition's XML is compared before/after."),
+    note="Streams avoid packets whose decoding the specification does not decide (out-of-bounds reads, field errors). Segment combining is "
+         "covered by C12 only (not interleaved across generators here). " + TRUSTED,
+    technique="TLA+ spec of generator interleavings, TLC exhaustive BFS; edge-cover replay (spec->code) and trace validation (code->spec)",
+    design="5 C11")
+
 NOT_YET = {}
 for _i in range(1, 21):
     _p = f"C{_i:02d}"
